@@ -462,5 +462,5 @@ Example cast_example :
   map fst (xt false ex_c) = [K_LPAREN; K_LPAREN; K_UNSIGNED; K_LONG; K_RPAREN; K_LPAREN; K_ID; K_PLUS; K_INT_CONST_DEC; K_RPAREN; K_RPAREN; K_TIMES;
                              K_LPAREN; K_SIZEOF; K_LPAREN; K_INT; K_RPAREN; K_RPAREN].
 Proof.
-  split; [cbn; repeat split; solve [reflexivity | discriminate | lia | repeat constructor]|]. split; [cbn; repeat split|]. split; vm_compute; reflexivity.
+  split; [cbn; repeat split; first [reflexivity | discriminate | lia | (left; split; [discriminate|repeat constructor])]|]. split; [cbn; repeat split|]. split; vm_compute; reflexivity.
 Qed.
